@@ -19,6 +19,99 @@ type pageSpec struct {
 
 type docSpec struct {
 	Pages []pageSpec
+	Tree  *treeNode `json:",omitempty"` // nil = flat page tree (all pages are kids of the root /Pages node)
+}
+
+// treeNode: a /Pages node (Leaf < 0) with its kids, or a page (Leaf = index into docSpec.Pages).
+// The pages must appear in index order in a left-to-right walk.
+type treeNode struct {
+	Leaf int
+	Kids []*treeNode `json:",omitempty"`
+}
+
+func leaf(i int) *treeNode          { return &treeNode{Leaf: i} }
+func node(k ...*treeNode) *treeNode { return &treeNode{Leaf: -1, Kids: k} }
+
+// shape renders the kid list of the node, e.g. "((0 1) 2)".
+func (t *treeNode) shape() string {
+	if t.Leaf >= 0 {
+		return fmt.Sprint(t.Leaf)
+	}
+	s := make([]string, len(t.Kids))
+	for i, k := range t.Kids {
+		s[i] = k.shape()
+	}
+	return "(" + strings.Join(s, " ") + ")"
+}
+
+func (t *treeNode) count() int {
+	if t.Leaf >= 0 {
+		return 1
+	}
+	n := 0
+	for _, k := range t.Kids {
+		n += k.count()
+	}
+	return n
+}
+
+func (t *treeNode) depth() int {
+	if t.Leaf >= 0 {
+		return 0
+	}
+	d := 0
+	for _, k := range t.Kids {
+		if kd := k.depth(); kd > d {
+			d = kd
+		}
+	}
+	return d + 1
+}
+
+// genTree builds a random /Pages node over pages lo..hi-1 with at most maxDepth levels of /Pages nodes.
+func genTree(rnd *rand.Rand, lo, hi, maxDepth int) *treeNode {
+	t := &treeNode{Leaf: -1}
+	for lo < hi {
+		if maxDepth <= 1 || rnd.Intn(2) == 0 {
+			t.Kids = append(t.Kids, leaf(lo))
+			lo++
+			continue
+		}
+		n := 1 + rnd.Intn(hi-lo)
+		t.Kids = append(t.Kids, genTree(rnd, lo, lo+n, maxDepth-1))
+		lo += n
+	}
+	return t
+}
+
+// chain wraps pages lo..hi-1 into d nested single-kid /Pages nodes.
+func chain(lo, hi, d int) *treeNode {
+	t := &treeNode{Leaf: -1}
+	for i := lo; i < hi; i++ {
+		t.Kids = append(t.Kids, leaf(i))
+	}
+	for ; d > 1; d-- {
+		t = node(t)
+	}
+	return t
+}
+
+// fixedTrees: the shapes a merge produces and other boundary shapes for n pages (as root nodes).
+func fixedTrees(n int) []*treeNode {
+	flat := chain(0, n, 1)
+	out := []*treeNode{flat}
+	if n >= 2 {
+		// Kids=[Pages[p1..pk] p(k+1)..pn] and Kids=[p1 Pages[...]] and two merged documents
+		out = append(out, node(append([]*treeNode{chain(0, n-1, 1)}, leaf(n-1))...))
+		out = append(out, node(leaf(0), chain(1, n, 1)))
+		out = append(out, node(chain(0, 1, 1), chain(1, n, 1)))
+		out = append(out, node(chain(0, 1, 3), chain(1, n, 1))) // depth 4
+	}
+	if n >= 3 {
+		out = append(out, node(chain(0, 1, 1), leaf(1), chain(2, n, 2)))
+		out = append(out, node(node(chain(0, 2, 1), leaf(2)), chain(3, n, 1)))
+	}
+	return out
 }
 
 func (d docSpec) inherits() bool {
@@ -123,10 +216,10 @@ func buildPDF(d docSpec) []byte {
 	objs := map[int]string{}
 	next := 10
 	alloc := func() int { next++; return next }
-	var kids []string
+	var pageObjs []int
 	for _, p := range d.Pages {
 		pg := alloc()
-		kids = append(kids, fmt.Sprintf("%d 0 R", pg))
+		pageObjs = append(pageObjs, pg)
 		contents := ""
 		switch p.Kind {
 		case 1:
@@ -152,14 +245,43 @@ func buildPDF(d docSpec) []byte {
 		if p.Res == 0 {
 			res = " /Resources " + resDictStr
 		}
-		objs[pg] = fmt.Sprintf("<< /Type /Page /Parent 2 0 R /MediaBox [0 0 612 792]%s%s >>", res, contents)
+		objs[pg] = fmt.Sprintf("<< /Type /Page /Parent %%PARENT%% 0 R /MediaBox [0 0 612 792]%s%s >>", res, contents)
 	}
 	objs[1] = "<< /Type /Catalog /Pages 2 0 R >>"
 	pagesRes := ""
 	if d.inherits() {
 		pagesRes = " /Resources " + resDictStr
 	}
-	objs[2] = fmt.Sprintf("<< /Type /Pages /Count %d /Kids [%s]%s >>", len(d.Pages), strings.Join(kids, " "), pagesRes)
+	tree := d.Tree
+	if tree == nil {
+		tree = chain(0, len(d.Pages), 1)
+	}
+	if tree.Leaf >= 0 || tree.count() != len(d.Pages) {
+		panic("bad page tree")
+	}
+	var emit func(t *treeNode, self, parent int)
+	emit = func(t *treeNode, self, parent int) {
+		var kids []string
+		for _, k := range t.Kids {
+			if k.Leaf >= 0 {
+				pg := pageObjs[k.Leaf]
+				objs[pg] = strings.Replace(objs[pg], "%PARENT%", fmt.Sprint(self), 1)
+				kids = append(kids, fmt.Sprintf("%d 0 R", pg))
+				continue
+			}
+			o := alloc()
+			kids = append(kids, fmt.Sprintf("%d 0 R", o))
+			emit(k, o, self)
+		}
+		par, res := "", ""
+		if parent > 0 {
+			par = fmt.Sprintf(" /Parent %d 0 R", parent)
+		} else {
+			res = pagesRes
+		}
+		objs[self] = fmt.Sprintf("<< /Type /Pages%s /Count %d /Kids [%s]%s >>", par, t.count(), strings.Join(kids, " "), res)
+	}
+	emit(tree, 2, 0)
 	objs[4] = "<< /Type /Font /Subtype /Type1 /BaseFont /Helvetica >>"
 	objs[5] = "<< /Type /ExtGState /CA 1 >>"
 	objs[6] = "<< /Type /XObject /Subtype /Form /BBox [0 0 10 10] /Length 0 >>\nstream\n\nendstream"
